@@ -19,8 +19,9 @@ use tokio::time::Instant;
 #[derive(Clone, Debug, PartialEq, Eq, Hash, Serialize, Deserialize)]
 pub enum OpS {
     Single(Single),
-    /// number of entries, adapted (EntriesOnly)
-    Stream(u8, bool),
+    /// number of entries, adapted (EntriesOnly), and - for a lagging consumer - the number of items
+    /// after which the caller stops reading until the fault has happened
+    Stream(u8, bool, Option<u8>),
 }
 
 #[derive(Clone, Debug, Serialize, Deserialize)]
@@ -43,7 +44,7 @@ pub enum Fault {
 }
 
 fn strat(_: &Ctx) -> BoxedStrategy<Scenario> {
-    let op = prop_oneof![3 => simops::single_strat().prop_map(OpS::Single), 3 => (0u8..4, any::<bool>()).prop_map(|(n, a)| OpS::Stream(n, a))];
+    let op = prop_oneof![3 => simops::single_strat().prop_map(OpS::Single), 3 => (0u8..7, any::<bool>(), proptest::option::weighted(0.4, 0u8..3)).prop_map(|(n, a, p)| OpS::Stream(n, a, p))];
     (vec(op, 1..=5), vec(any::<u16>(), 32), proptest::bool::weighted(0.3), 0u8..8, any::<u64>()).prop_map(|(ops, ranks, one_byte_reads, write_chunk, sched)| Scenario { ops, ranks, one_byte_reads, write_chunk, sched }).boxed()
 }
 
@@ -54,7 +55,7 @@ fn tok(i: usize, s: usize) -> String {
 fn n_pdus(o: &OpS) -> usize {
     match o {
         OpS::Single(_) => 1,
-        OpS::Stream(n, _) => *n as usize + 1,
+        OpS::Stream(n, _, _) => *n as usize + 1,
     }
 }
 
@@ -108,8 +109,10 @@ pub fn run(scn: &Scenario, fault: &Fault) -> SimResult<RunOut> {
         let mut out = RunOut::default();
         // ---- client operations, each on its own handle
         let mut tasks = Vec::new();
+        let (resume_tx, resume_rx) = tokio::sync::watch::channel(false);
         for (i, op) in scn.ops.iter().cloned().enumerate() {
             let mut ldap = conn.ldap.clone();
+            let mut resume = resume_rx.clone();
             tasks.push(tokio::spawn(async move {
                 let mk = simops::marker(i);
                 let mut o = OpOut::default();
@@ -122,11 +125,19 @@ pub fn run(scn: &Scenario, fault: &Fault) -> SimResult<RunOut> {
                             }
                             Err(e) => o.end = err_kind(&e),
                         },
-                        OpS::Stream(_, adapted) => {
+                        OpS::Stream(_, adapted, pause_after) => {
                             let s = if adapted { ldap.streaming_search_with(EntriesOnly::new(), &mk, Scope::Subtree, "(a=b)", vec!["a"]).await } else { ldap.streaming_search(&mk, Scope::Subtree, "(a=b)", vec!["a"]).await };
                             match s {
                                 Ok(mut s) => {
                                     loop {
+                                        if pause_after.map(|p| p as usize == o.tokens.len()).unwrap_or(false) {
+                                            // lagging consumer: stop reading until the scenario has injected its fault
+                                            while !*resume.borrow() {
+                                                if resume.changed().await.is_err() {
+                                                    break;
+                                                }
+                                            }
+                                        }
                                         match s.next().await {
                                             Ok(Some(re)) => o.tokens.push(simops::item_token(&re).1),
                                             Ok(None) => {
@@ -294,6 +305,9 @@ pub fn run(scn: &Scenario, fault: &Fault) -> SimResult<RunOut> {
                 wire.end_read(ReadEnd::Eof);
             }
         }
+        // ---- lagging consumers resume now
+        quiesce().await;
+        let _ = resume_tx.send(true);
         // ---- collect
         for t in tasks {
             match t.await {
@@ -436,8 +450,11 @@ pub fn check(scn: &Scenario, obs: &mut Obs) -> Result<(), Fail> {
     }
     obs.evals(faults.len() as u64);
     obs.label(format!("faults-per-scenario~{}", (faults.len() / 100) * 100));
-    if scn.ops.iter().any(|o| matches!(o, OpS::Stream(n, _) if *n > 0)) {
+    if scn.ops.iter().any(|o| matches!(o, OpS::Stream(n, _, _) if *n > 0)) {
         obs.label("stream-with-items");
+    }
+    if scn.ops.iter().any(|o| matches!(o, OpS::Stream(n, _, Some(p)) if *n > *p + 2)) {
+        obs.label("lagging-consumer-with->2-unread-items");
     }
     if nt > 0 {
         obs.evals(0);
@@ -451,7 +468,7 @@ pub fn property() -> Property {
     Property {
         id: "C04",
         level: "fault_enumeration",
-        rule: "generated scenario: 1-5 concurrent operations on their own handles (7 single-result kinds; direct and EntriesOnly streams with 0-3 entries), a generated merge order of the response stream, optional 1-byte reads and small write sizes, scheduler seed. For each scenario the fault-free run fixes the response stream R and request stream W; then EXHAUSTIVELY: clean EOF and ConnectionReset after every byte offset 0..=|R|; an undecodable frame (4 kinds the decoder rejects) and a client unbind() at every PDU boundary of R; a write failure after every byte offset 0..|W| (partial write then failure); drop of the last handle. Oracle per run: every operation future, every stream call and drive() complete before a virtual-clock watchdog; an operation whose complete response preceded the fault returns it intact; every other pending operation returns Err - never Ok, a stream returns exactly the fully arrived items in order and then Err; an operation started after the fault fails in zero virtual time; unbind: UnbindRequest is the last PDU, the write side is shut down, drive() returns once the server closes; last-handle drop: transport dropped, drive() returns Ok without server help. Non-trivial (counted per scenario): >=1 operation pending at the fault and the cut strictly inside a PDU or between two PDUs of one operation. Distinct = hash of (operations, merge order, read mode).",
+        rule: "generated scenario: 1-5 concurrent operations on their own handles (7 single-result kinds; direct and EntriesOnly streams with 0-6 entries, optionally with a lagging consumer that stops reading after k items until the fault has happened), a generated merge order of the response stream, optional 1-byte reads and small write sizes, scheduler seed. For each scenario the fault-free run fixes the response stream R and request stream W; then EXHAUSTIVELY: clean EOF and ConnectionReset after every byte offset 0..=|R|; an undecodable frame (4 kinds the decoder rejects) and a client unbind() at every PDU boundary of R; a write failure after every byte offset 0..|W| (partial write then failure); drop of the last handle. Oracle per run: every operation future, every stream call and drive() complete before a virtual-clock watchdog; an operation whose complete response preceded the fault returns it intact; every other pending operation returns Err - never Ok, a stream returns exactly the fully arrived items in order and then Err; an operation started after the fault fails in zero virtual time; unbind: UnbindRequest is the last PDU, the write side is shut down, drive() returns once the server closes; last-handle drop: transport dropped, drive() returns Ok without server help. Non-trivial (counted per scenario): >=1 operation pending at the fault and the cut strictly inside a PDU or between two PDUs of one operation. Distinct = hash of (operations, merge order, read mode).",
         assumptions: &["client-side events (unbind, drop) are injected only when the driver has quiesced, so that legitimate select! races are not reported", "the scripted transport fails writes after shutdown like a socket", "evaluations counts every injected fault run; distinct_nontrivial counts scenarios containing at least one non-trivial fault"],
         lanes: vec![Box::new(PLane { name: "faults", cases: |t| t.pick(60, 600), strat, check })],
         workers: (8, 16),
